@@ -18,8 +18,10 @@ def ref_key(v):
   return ('unk', v.selector, bool(v.evaluate))
 
 
-def canon(v):
-  """A hashable canonical form such that canon(a) == canon(b) iff teq(a, b)."""
+def canon(v, ordered=True):
+  """A hashable canonical form such that canon(a) == canon(b) iff teq(a, b).
+
+  ordered=False ignores dict insertion order at every depth."""
   t = type(v)
   if _is_ref(v):
     return ref_key(v)
@@ -28,9 +30,10 @@ def canon(v):
   if t in (int, bool, str, bytes, type(None)):
     return (t.__name__, v)
   if t in (list, tuple):
-    return (t.__name__, tuple(canon(x) for x in v))
+    return (t.__name__, tuple(canon(x, ordered) for x in v))
   if t is dict:
-    return ('dict', tuple((canon(k), canon(x)) for k, x in v.items()))
+    items = tuple((canon(k, ordered), canon(x, ordered)) for k, x in v.items())
+    return ('dict', items if ordered else frozenset(items))
   if t in (set, frozenset):
     return (t.__name__, frozenset(canon(x) for x in v))
   return ('obj', t.__module__, t.__qualname__, id(v))
